@@ -650,6 +650,28 @@ func loadersCase(n int, compressible bool, mk func(kind, detail string) *hx.Viol
 	if v := check("NewModelFromBytes", m, err); v != nil {
 		return v
 	}
+	// NewModel on a proto the caller decoded itself: the caller's proto is left as it is (it can be marshalled again,
+	// loaded a second time), and both models compute the weight
+	if mp, perr := gonnx.ModelProtoFromBytes(mb); perr == nil {
+		before, _ := proto.Marshal(mp)
+		m1, err1 := gonnx.NewModel(mp)
+		if v := check("NewModel(proto)", m1, err1); v != nil {
+			return v
+		}
+		after, _ := proto.Marshal(mp)
+		if !bytes.Equal(before, after) {
+			return mk("mutated-input", fmt.Sprintf("NewModel changed the ModelProto the caller handed in (%d -> %d bytes when marshalled again)", len(before), len(after)))
+		}
+		m2, err2 := gonnx.NewModel(mp)
+		if v := check("second NewModel on the same proto", m2, err2); v != nil {
+			return v
+		}
+		if v := check("first model after the second load", m1, nil); v != nil {
+			return v
+		}
+	} else {
+		return mk("refused", "ModelProtoFromBytes refuses a valid model: "+perr.Error())
+	}
 	dir, err := os.MkdirTemp("", "verif-loaders")
 	if err != nil {
 		hx.HarnessError("temp dir: %v", err)
